@@ -524,6 +524,7 @@ pub fn run(r: &Report) -> i32 {
     let thorough = r.tier.thorough();
     let cap = if thorough { 22 } else { 16 };
     let mut tasks: Vec<(usize, bool, Vec<Owner>, Vec<u8>)> = vec![];
+    let mut unsorted_cfgs = 0u64;
     let fams = families(thorough);
     let fams8 = families_u8();
     use Owner::*;
@@ -568,12 +569,20 @@ pub fn run(r: &Report) -> i32 {
             }
             continue;
         }
-        for ov in owner_subset(f.n_inputs, thorough) {
+        for (oi, ov) in owner_subset(f.n_inputs, thorough).into_iter().enumerate() {
             for outs in mpcx::output_subsets() {
                 tasks.push((fi, false, ov.clone(), outs));
             }
+            // output-party lists that are not ascending (another party reveals and forwards): first owner vectors only
+            if f.n_inputs <= 2 && oi < if thorough { 6 } else { 2 } {
+                for outs in mpcx::output_lists_unsorted() {
+                    tasks.push((fi, false, ov.clone(), outs));
+                    unsorted_cfgs += 1;
+                }
+            }
         }
     }
+    r.count("configurations_with_unsorted_output_list", unsorted_cfgs);
     for (fi, f) in fams8.iter().enumerate() {
         if f.n_inputs == 2 {
             // two unknown mask bytes per observer: 65536 tapes per input pair
